@@ -814,5 +814,7 @@ func factsC11(r *Repo) []Fact {
 		}
 		_ = appends
 	}
+	// ---- contexts and the lock (family "late", c11_late.go) ----
+	out = append(out, factsC11Late(r)...)
 	return out
 }
